@@ -245,6 +245,30 @@ def eval_case(tree, nodes, case):
             out.append((CL_PERM, func, f"{m}: yielded {_names(got, idx)}, required a permutation of {_names(exp, idx)}"))
         return out, len(exp) >= 2
 
+    if kind == "two":
+        _, m = case
+        func = "Tree.iterator"
+        exp = pre(tree._root)
+        try:
+            it1 = iter(tree.iterator(METHOD[m]))
+            got1 = list(itertools.islice(it1, len(exp) // 2))  # the first iterator is part-way through ...
+            it2 = iter(tree.iterator(METHOD[m]))  # ... when the second one is created
+            got2 = []
+            for _ in range(cap + 1):
+                a, b = next(it1, None), next(it2, None)
+                if a is None and b is None:
+                    break
+                if a is not None:
+                    got1.append(a)
+                if b is not None:
+                    got2.append(b)
+        except Exception as e:  # noqa: BLE001
+            return [(CL_EXC, func, f"{type(e).__name__}: {e}")], True
+        for which, got in (("first", got1), ("second", got2)):
+            if len(got) != len(exp) or {id(x) for x in got} != {id(x) for x in exp}:
+                out.append((CL_PERM if m in ("unordered", "random") else CL_ITER, func, f"{m}, two iterators consumed alternately: the {which} yielded {_names(got, idx)}, required {'a permutation of ' if m in ('unordered', 'random') else ''}{_names(exp, idx)}"))
+        return out, len(exp) >= 2
+
     if kind == "visit":
         _, s, m, add_self, at, sig, memo_kind = case
         obj, raw = start_of(s)
@@ -315,6 +339,8 @@ def enum_cases(spec, *, full_signals=True):
 
     for m in ("unordered", "random"):
         yield ("unord", m)
+    for m in ("unordered", "random", "pre", "level"):
+        yield ("two", m)  # two iterators of the same tree consumed alternately: each still yields its own full sequence
     toggle = 0
     for s in [-1] + list(range(n)):
         yield ("for", s)
